@@ -1424,15 +1424,16 @@ func (m *Model) RunAssignCases(s *Sink, rule string) {
 		}
 		bound, isBound := inner.fields[fStore].(*iMap).vals[xKey]
 		ro, _ := res.(*iStruct)
+		isErr := ro != nil && (ro == errObj || ro.typ == errT) // built by newError or by another constructor of the evaluator
 		switch outerKind {
 		case "FLOAT":
-			if ro != errObj {
+			if !isErr {
 				bad = "with x a FLOAT of an enclosing scope, `x = <integer>` does not yield an error"
 			} else if isBound {
 				bad = "with x a FLOAT of an enclosing scope, `x = <integer>` binds x although it fails"
 			}
 		default:
-			if ro == errObj {
+			if isErr {
 				bad = "with x " + outerKind + ", `x = <integer>` yields an error"
 			} else if !isBound || bound != any(vobj) {
 				bad = "with x " + outerKind + ", after `x = value` the scope of the statement does not hold the evaluated value itself under x"
